@@ -50,6 +50,12 @@ def run(chk, replay=None):
     k15 = Prog("fn helper2(el: bool, acc: List<u8, 2>) -> List<u8, 2> { list![0xff] }\nfn main() { let x: List<u8, 2> = fold::<helper2, 4>(list![], witness::W3); }",
                [("W3", ("L", ("U", 3), 1))], "known/D15")
     k15.extra_assign = [[("W3", ("li", ("U", 3), 1, (("u", 3, 61),)))]]
+    # the witness-flow shapes of C02 (unused, ignored, destructured-but-never-inspected, ...) through the pruned path
+    pgx = __import__("progen").ProgGen(rng, {}, 5)
+    for kind, tmpl in c02.SHAPES:
+        for T in [("U", 3), ("B",), ("T", (("U", 3), ("B",))), ("E", ("U", 1), ("U", 3)), gen.UNIT, pgx.small_ty(2)]:
+            q = Prog(tmpl % {"T": gen.ty_src(T)}, list(c02.shape_type(kind, T).items()), "shape/%s/%s" % (kind, gen.ty_src(T)))
+            gprogs.append(q)
     gprogs = [k10, k13, k15] + gprogs
     acc = corelib.check_terms(chk, gprogs + env_progs, dbgs=(0,))
     jobs = []
